@@ -375,7 +375,7 @@ def cases_of(scenarios, outputs):
 # the standard flow of a ceremony-level property check
 
 def standard_check(run, prop, scenarios, meta, coq_oracles, py_oracle=None, coq_files=(), rule="", extra_targets=(),
-                   pair_oracle=None, assumptions=()):
+                   pair_oracle=None, assumptions=(), client=False, extra_preamble=""):
     """scenarios: harness cases; meta: one hashable signature per scenario (distinctness measure);
     coq_oracles: names of `ccase -> bool` functions (besides `agree`) evaluated on the implementation's
     observations; py_oracle(sc, out) -> list of failure strings (independent Python checks: signatures,
@@ -384,19 +384,24 @@ def standard_check(run, prop, scenarios, meta, coq_oracles, py_oracle=None, coq_
     bad = common.hygiene_gate()
     if bad:
         raise common.Tie("hygiene gate: " + "; ".join(bad))
-    common.coq_build(list(COQ_TARGETS) + list(extra_targets))
+    # client=True: WebAuthn-level scenarios (mode "client": ops register/authenticate through passkey_client::Client),
+    # compared with Auth/Client.v by ClientCheck.wagree; otherwise CTAP2-level scenarios compared by CeremonyCheck.agree
+    preamble = (WPREAMBLE if client else PREAMBLE) + extra_preamble
+    agree_fn = "wagree" if client else "agree"
+    common.coq_build(list(WCOQ_TARGETS if client else COQ_TARGETS) + list(extra_targets))
     thms, assum = common.props_check(prop)
     binary = common.harness_build("ceremony")
     corpus = load_corpus(prop)
     scenarios = corpus + scenarios
     meta = [("corpus", i) for i in range(len(corpus))] + list(meta)
     outs = run_scenarios(binary, scenarios)
-    flat = cases_of(scenarios, outs)
+    flat = wcases_of(scenarios, outs) if client else cases_of(scenarios, outs)
     crashed = [(si, obs) for (si, oi, op, obs, t) in flat if t is None]
     live = [(si, oi, op, obs, t) for (si, oi, op, obs, t) in flat if t is not None]
     terms = [t for (_, _, _, _, t) in live]
-    funcs = ["agree"] + list(coq_oracles)
-    res = common.coq_eval(prop, PREAMBLE, terms, funcs, shard=200)
+    funcs = [agree_fn] + list(coq_oracles)
+    res = common.coq_eval(prop, preamble, terms, funcs, shard=200)
+    res["agree"] = res[agree_fn]
     n_viol = 0
     for si, obs in crashed[:3]:
         run.violation({"kind": "ceremony crashed the process (abort / stack overflow / timeout)", "scenario": scenarios[si], "observed": obs}); n_viol += 1
@@ -427,16 +432,19 @@ def standard_check(run, prop, scenarios, meta, coq_oracles, py_oracle=None, coq_
         for i in res["agree"][:1]:
             si, oi, op, obs, t = live[i]
             run.violation({"kind": "model and implementation disagree; every oracle true on all %d observations of this run" % len(terms),
-                           "broken": "correspondence ceremony/%s (Auth.CeremonyCheck.agree, replay of the call log)" % op["op"],
+                           "broken": "correspondence ceremony/%s (%s, replay of the call log)" % (op["op"], "Auth.ClientCheck.wagree" if client else "Auth.CeremonyCheck.agree"),
                            "scenario": scenarios[si], "op_index": oi, "observed": obs,
-                           "model": common.coq_show(prop, PREAMBLE, "match (%s) with CMake c q log qs ht _ => inl (replay (make_credential c q) log qs 0) | CGet c q log qs ht _ => inr (inl (replay (get_assertion (ad_bytes Sha256.sha256) c q) log qs 0)) | CInfo c log _ => inr (inr (replay (get_info c) log (Build_queues [] [] [] []) 0)) end" % t)[-3000:]},
+                           "model": common.coq_show(prop, preamble,
+                               ("match (%s) with CRegister c dm o q cd log qs _ => inl (replay (register c dm o q cd) log qs 0) | CAuthenticate c dm o q cd log qs _ => inr (replay (authenticate c dm o q cd) log qs 0) end" if client else
+                                "match (%s) with CMake c q log qs ht _ => inl (replay (make_credential c q) log qs 0) | CGet c q log qs ht _ => inr (inl (replay (get_assertion (ad_bytes Sha256.sha256) c q) log qs 0)) | CInfo c log _ => inr (inr (replay (get_info c) log (Build_queues [] [] [] []) 0)) end") % t)[-3000:]},
                           found_input=False)
     files = ["theories/Auth/Prog.v", "theories/Auth/Monitor.v", "theories/Auth/Effects.v", "theories/Props/%s.v" % prop] + list(coq_files)
     n_lem = common.count_lemmas(files)
     kinds = {}
     for si, oi, op, obs, t in live:
         r = obs["result"]
-        k = (op["op"], "ok" if "ok" in r else "cancelled" if r.get("cancelled") else "err%d" % r["err"])
+        k = (op["op"], "ok" if "ok" in r else "cancelled" if r.get("cancelled") else
+             ("err%d" % r["err"] if not isinstance(r["err"], dict) else "err:%s%s" % (r["err"].get("kind"), r["err"].get("code", ""))))
         kinds[k] = kinds.get(k, 0) + 1
     run.cov.update({
         "obligations": n_lem, "discharged": n_lem,
